@@ -692,22 +692,48 @@ Example apply_dynamic_example :
           [2; 3; 4; 5; 6; 7; 10]%Z = true.
 Proof. vm_compute. by split_and!. Qed.
 
-(** ** A second way in which the property fails: keys given as LEVELS.
+(** ** Keys given as LEVELS.
     [quantify] (like [cofactor]) accepts levels instead of names
-    ([_map_to_level]); the second attempt maps the same integers under the
-    new order, so another variable is quantified.  Here [\E level 0. f] is
-    [\E v0. f] without the request and [\E v2. f] with it. *)
-Example quantify_levels_not_stable :
+    ([_map_to_level]).  Before dd commit a1c66f6 the decorated method mapped
+    the same integers a second time, under the new order, and another variable
+    was quantified ([\E level 0. f] was [\E v0. f] without the request and
+    [\E v2. f] with it).  Now the public method turns the levels into names
+    before it calls the decorated worker: on the same scenario the result is
+    [\E v0. f] whether the request fires or not (and not [\E v2. f], although
+    the reordering really happens and v2 sits at level 0 afterwards). *)
+Example quantify_levels_stable :
   let w0 := run_ops dyn_history in
   let w1 := fst (step w0 0 (OSetTrig (Some 1))) in
   let '(wA, rA) := step w0 0 (OQuantify 10 false [0] false) in
   let '(wB, rB) := step w1 0 (OQuantify 10 false [0] false) in
   let '(wC, rC) := step w1 0 (OQuantify 10 true [0] false) in
   let '(wD, rD) := step w0 0 (OQuantify 10 true [2] false) in
-  table 4 (world_get wB 0) rB ≠ table 4 (world_get wA 0) rA ∧
-  table 4 (world_get wB 0) rB = table 4 (world_get wD 0) rD ∧
-  (* by name the result is stable *)
-  table 4 (world_get wC 0) rC = table 4 (world_get wA 0) rA.
+  let s := world_get w0 0 in let sB := world_get wB 0 in
+  (* the request fired, the variables were reordered, requests are on again *)
+  vars s !! 0 = Some 0 ∧ vars s !! 2 = Some 2 ∧ vars sB !! 2 = Some 0 ∧
+  bool_decide (is_Some (last_len sB)) = true ∧ rctx sB = false ∧ trig sB = None ∧
+  (* the same function as without the request, and as by name *)
+  table 4 (world_get wB 0) rB = table 4 (world_get wA 0) rA ∧
+  table 4 (world_get wC 0) rC = table 4 (world_get wA 0) rA ∧
+  (* which is not the quantification of the variable at level 0 afterwards *)
+  table 4 (world_get wB 0) rB ≠ table 4 (world_get wD 0) rD.
+Proof. vm_compute. split_and!; done. Qed.
+
+(** the same for [cofactor]: [f | level 1 = TRUE] is [f | v1 = TRUE], whether
+    the request fires or not, although v0 sits at level 1 afterwards *)
+Example cofactor_levels_stable :
+  let w0 := run_ops dyn_history in
+  let w1 := fst (step w0 0 (OSetTrig (Some 1))) in
+  let '(wA, rA) := step w0 0 (OCofactor 10 false [(1, true)]) in
+  let '(wB, rB) := step w1 0 (OCofactor 10 false [(1, true)]) in
+  let '(wC, rC) := step w1 0 (OCofactor 10 true [(1, true)]) in
+  let '(wD, rD) := step w0 0 (OCofactor 10 true [(0, true)]) in
+  let s := world_get w0 0 in let sB := world_get wB 0 in
+  lvl2var s !! 1 = Some 1 ∧ lvl2var sB !! 1 = Some 0 ∧
+  bool_decide (is_Some (last_len sB)) = true ∧ rctx sB = false ∧ trig sB = None ∧
+  table 4 (world_get wB 0) rB = table 4 (world_get wA 0) rA ∧
+  table 4 (world_get wC 0) rC = table 4 (world_get wA 0) rA ∧
+  table 4 (world_get wB 0) rB ≠ table 4 (world_get wD 0) rD.
 Proof. vm_compute. split_and!; done. Qed.
 
 (** ** Instance: [cofactor] with the values given by variable name *)
